@@ -10,8 +10,12 @@ GAPS = [0, 0, 0, 1, 1, 2, 5, 13, 27, 28, 29, 30, 31, 32, 33, 45, 90, 200]
 WINDOW_GAPS = [0, 1, 2, 28, 29, 30, 31, 32]
 RATIOS = [("2", "1"), ("3", "1"), ("3", "2"), ("1", "2"), ("1.0", "2.0"), ("10", "1"),
           ("5", "4"), ("1", "3"), ("1.0", "3.0"), ("2", "3"), ("1.5", "1"), ("1", "10"), ("7", "1"), ("1", "7"),
-          ("2", "4"), ("4", "10"), ("3", "9"), ("2", "6"), ("6", "4")]     # ratios not in lowest terms
-TERMINATING = [("2", "1"), ("3", "2"), ("1", "2"), ("1.0", "2.0"), ("10", "1"), ("5", "4"), ("1.5", "1"), ("1", "10")]
+          ("2", "4"), ("4", "10"), ("3", "9"), ("2", "6"), ("6", "4"),     # ratios not in lowest terms
+          ("1", "32"), ("1", "64"), ("1", "160"), ("64", "1"), ("25", "2"), ("12.5", "1"), ("20", "1")]  # long factors, two-digit sides
+TERMINATING = [("2", "1"), ("3", "2"), ("1", "2"), ("1.0", "2.0"), ("10", "1"), ("5", "4"), ("1.5", "1"), ("1", "10"),
+               ("1", "32"), ("1", "64"), ("1", "160"), ("64", "1"), ("25", "2"), ("12.5", "1"), ("20", "1")]
+# security names: mostly the plain ones; sometimes names with lower-case letters, digits, a dot
+SEC_NAMES = [["FOO", "BAR", "QUX"], ["FOO", "BAR", "QUX"], ["FOO", "BAR", "QUX"], ["Brk.b", "tdb900", "aXa"]]
 
 
 def qty(rng):
@@ -147,8 +151,9 @@ def gen_case(rng, **kw):
     nsec = rng.choice([1, 1, 1, 2, 3])
     rows = []
     inits = {}
+    names = rng.choice(SEC_NAMES)
     for s in range(nsec):
-        sec = ["FOO", "BAR", "QUX"][s]
+        sec = names[s]
         rows += gen_history(rng, sec=sec, **kw)
         if rng.random() < 0.15:
             inits[sec] = (D(rng.randint(0, 500), rng.choice([0, 1])), D(rng.randint(0, 100000), 2))
